@@ -25,6 +25,7 @@ import (
 	"fmt"
 	"os"
 	"strings"
+	"time"
 
 	"verifharness/c04/fx"
 	"verifharness/hx"
@@ -211,6 +212,9 @@ func (d *driver) oracle(sc *fx.Scenario, f fx.Fault, obs *fx.Obs, bi *baseInfo) 
 
 func (d *driver) one(sc *fx.Scenario, f fx.Fault, bi *baseInfo) fx.Obs {
 	obs := fx.Run(sc, f, d.mat)
+	if os.Getenv("C04_DEBUG") != "" {
+		fmt.Fprintf(os.Stderr, "%s %+v -> err=%v %q state=%d fired=%v/%d timedout=%v panic=%q ops=%d/%d %v\n", sc.Name, f, obs.HasErr, obs.Err, obs.State, obs.Fired, obs.FiredModel, obs.TimedOut, obs.Panic, obs.RawOps, obs.ModelOps, obs.Elapsed)
+	}
 	d.oracle(sc, f, &obs, bi)
 	kind := f.Kind
 	if kind == "" {
@@ -304,6 +308,20 @@ func main() {
 	d := &driver{res: res, mat: fx.NewTLSMaterial(), seen: map[[32]byte]bool{}, thor: o.Thorough() || o.Search, stats: map[string]int{},
 		cf: &hx.CaseFile{Name: "c4", Imports: imports, Ok: "case_ok", Type: "case"}}
 	scens := fx.Scenarios()
+	if w := os.Getenv("C04_WATCHDOG_MS"); w != "" {
+		var ms int
+		fmt.Sscan(w, &ms)
+		fx.Watchdog = time.Duration(ms) * time.Millisecond
+	}
+	if only := os.Getenv("C04_ONLY"); only != "" {
+		var keep []*fx.Scenario
+		for _, sc := range scens {
+			if strings.Contains(","+only+",", ","+sc.Name+",") {
+				keep = append(keep, sc)
+			}
+		}
+		scens = keep
+	}
 
 	if o.Replay != "" {
 		raw, err := os.ReadFile(o.Replay)
